@@ -2,6 +2,7 @@
 package cert
 
 import (
+	"cmp"
 	"container/list"
 	"fmt"
 	"slices"
@@ -193,7 +194,7 @@ func (c *Authority) VerifyAggregateQC(aggQC hotstuff.AggregateQC) (highQC hotstu
 func (c *Authority) findHighestValidQC(qcs []hotstuff.QuorumCert) (highQC hotstuff.QuorumCert, err error) {
 	// Sort QCs by view in descending order to check the highest view first.
 	slices.SortFunc(qcs, func(a, b hotstuff.QuorumCert) int {
-		return int(b.View()) - int(a.View())
+		return cmp.Compare(b.View(), a.View())
 	})
 	for _, qc := range qcs {
 		if err := c.VerifyQuorumCert(qc); err == nil {
